@@ -538,6 +538,9 @@ func (C03) Run(t *testing.T, plan *kernel.Plan, keepLog bool) *kernel.Result {
 			}
 			w.State(fmt.Sprintf("%s len=%d", entry, len(p.data)))
 		}
+		if !w.Res.Cut {
+			c03SearchableRow(w, plan, rng)
+		}
 		w.Res.SimNanos = int64(time.Since(start))
 	})
 	return w.Finish()
